@@ -23,7 +23,7 @@
    Aliases, services, security profiles and data directories are not modelled (tasks of other managers are opaque). *)
 From Coq Require Import List NArith ZArith Bool.
 Import ListNotations.
-Require Import V.models.SnapSeq V.proofs.SnapSeqProofs.
+Require Import V.models.SnapSeq V.proofs.SnapSeqProofs V.proofs.SnapSeqProofs2 V.proofs.SnapSeqProofs3.
 Open Scope N_scope.
 
 (* run_change o (S j) ts s: the first j tasks of ts complete, the next one fails, the j tasks are undone in reverse.
@@ -37,6 +37,21 @@ Theorem C10_failed_op_restores : forall (s : st) (o : op) (j : nat) (retain : Z)
   forget (run_change o (S j) (tasks_for o s retain inuse) s) = forget s.
 Proof. exact failed_op_restores. Qed.
 Print Assumptions C10_failed_op_restores.
+
+(* what IS restored when discards already ran — PARTIAL.  Full statement (DESIGN): for every refresh and every failure
+   position, everything is restored except that the revisions whose discard-snap completed are gone, the order of the
+   remaining ones preserved.  Proved for every refresh to a NOT-YET-KEPT revision (the usual refresh; retain >= 2, any in-use
+   answer, any failure position j, also after the last task): the result is the state before `minus` exactly the revisions
+   of the discard-snap tasks among the first j tasks (their kept entries, mounts and RevertStatus marks go; current, active,
+   channel, flags, times, configuration, link and the order of the others are as before).  Missing: refresh to an
+   already-kept revision after a discard (undoLinkSnap's countMissingRevs arithmetic with a non-zero count) — compared
+   with the model on the real code by the driver's sweep, not proved. *)
+Theorem C10_failed_after_gc_partial : forall (s : st) (o : op) (j : nat) (retain : Z) (inuse : N -> bool),
+  wf s -> okind o = ORefresh -> accepts o s = true -> ~ In (orev o) (seq s) -> (2 <= retain)%Z -> cfg_guard o s ->
+  forget (run_change o (S j) (tasks_for o s retain inuse) s)
+  = forget (minus (map snd (filter is_discard (firstn j (tasks_for o s retain inuse)))) s).
+Proof. exact failed_after_gc. Qed.
+Print Assumptions C10_failed_after_gc_partial.
 
 (* finding 7 (key fail-after-discard): kept [1,2], retain 2, refresh to the new revision 3 failing after the
    discard-snap of revision 1 completed: the refresh is undone but kept = [2], mounted = [2] *)
